@@ -322,7 +322,12 @@ func runC03(c E3Case) (out core.Outcome) {
 				escaped = mock.Catch(func() { r.pl.FireChannelEvent("e:" + tag) })
 				m.inbound(kEvent, 0, "e:"+tag)
 			case kException:
-				err := fmt.Errorf("fired%s", tag)
+				// plain errors and (every third event) a timeout net.Error: an exception forwarded past the last handler closes the channel whatever its kind
+				var err error = fmt.Errorf("fired%s", tag)
+				if ei%3 == 1 {
+					err = &mock.NetErr{Msg: "fired" + tag, TO: true}
+					cls.Add("fire:exception-timeout")
+				}
 				escaped = mock.Catch(func() { r.pl.FireChannelException(err) })
 				m.inbound(kException, 0, "x:fired"+tag)
 			}
